@@ -41,7 +41,10 @@ def scalar(f):
     return len(f) == 1 or f in ORDERED
 
 
-MULTI = ["3H", "4I", "8Q", "6B", "2I", "5B", "64I", "2q", "IH", "QI", "Ib", "QB", "HB"]
+MULTI = ["3H", "4I", "8Q", "6B", "2I", "5B", "64I", "2q", "IH", "QI", "Ib",
+         "QB", "HB",
+         # elements that grow: native packing puts padding between them
+         "BQ", "HI", "BH", "BI", "HQ", "IQ", "BHI", "bq"]
 
 
 def plan(tier, seed):
